@@ -153,8 +153,8 @@ pub fn scenario(idx: usize, seed: u64, reqs_per_task: usize) -> ScenarioResult {
         senders.push(Some(gen_peer(&mut rng)));
     }
     let senders = Arc::new(senders);
-    let ntasks = rng.gen_range(2..=8usize);
-    let nclones = rng.gen_range(1..=64usize);
+    let ntasks = if super::miri() { 2 } else { rng.gen_range(2..=8usize) };
+    let nclones = if super::miri() { 3 } else { rng.gen_range(1..=64usize) };
     let rt = tokio::runtime::Builder::new_multi_thread().worker_threads(4).enable_all().build().unwrap();
     // sent: id -> (sender, has token, body hash)
     let sent: Arc<Mutex<HashMap<u64, Option<PeerId>>>> = Default::default();
@@ -310,7 +310,7 @@ pub fn run(ctx: &Ctx) -> i32 {
         seed: ctx.seed,
         scenarios: if super::miri() { 2 } else { tier.pick(256, 3_000) },
         threads: 4,
-        watchdog: Duration::from_secs(300),
+        watchdog: Duration::from_secs(if super::miri() { 3_000 } else { 300 }),
         budget: Duration::from_secs(tier.pick(90, 900)),
         only: ctx.only,
     };
